@@ -214,7 +214,7 @@ class ErrorEstimator:
 
                 # Compare with rhs.
                 if M0u0:
-                    result[i] += M0u0(t, x.reshape(2, 1))
+                    result[i] += np.squeeze(M0u0(t, x.reshape(2, 1)))
                 if g:
                     result[i] -= g(t, x.reshape(2, 1))
 
